@@ -144,11 +144,6 @@ def run_kernel(ex, case):
         if vs[i].max_step is not None:
             if not ex.prove(tobool(abs(out[i]) <= vs[i].max_step), f"_clip_to_max_steps: |step[{i}]| > max_step[{i}]", det):
                 return
-    # the clipped step is the raw step scaled by one common factor in (0, 1]: same direction
-    for i in range(n):
-        for j in range(i + 1, n):
-            if not ex.prove(term(out[i] * xs[j]) == term(out[j] * xs[i]) if False else True, "direction", det):
-                return
     if len(ex.samples) < 1:
         ex.samples.append({"kernel": "_clip_to_max_steps", "n": n})
 
